@@ -955,14 +955,44 @@ def check_interval_guard(ix, rep, rule='R-GUARD-DOM'):
             if isinstance(c, ast.Call) and isinstance(c.func, ast.Name) and c.func.id == 'Interval':
                 target = st
 
-    def test_pred(t):
-        if isinstance(t, ast.BoolOp) and isinstance(t.op, ast.Or):
+    # the two bounds are whatever the results of intervalTime(0) / intervalTime(1) are called; a local that holds a bound scaled by its unit stands for it
+    bvar, evar = 'begin', 'end'
+    binds = {}
+    stores = {}
+    for n_ in ast.walk(f.node):
+        if isinstance(n_, ast.Name) and isinstance(n_.ctx, ast.Store):
+            stores[n_.id] = stores.get(n_.id, 0) + 1
+    for st in f.node.body:
+        if isinstance(st, ast.Assign) and isinstance(st.targets[0], ast.Tuple) and len(st.targets[0].elts) == 2 and isinstance(st.targets[0].elts[0], ast.Name):
+            v_ = ast.unparse(st.value).replace(' ', '')
+            if 'intervalTime(0)' in v_:
+                bvar = st.targets[0].elts[0].id
+            if 'intervalTime(1)' in v_:
+                evar = st.targets[0].elts[0].id
+        if isinstance(st, ast.Assign) and len(st.targets) == 1 and isinstance(st.targets[0], ast.Name) and stores.get(st.targets[0].id) == 1:
+            binds[st.targets[0].id] = st.value
+
+    def mentions(e, var, depth=0):
+        for x in ast.walk(e):
+            if isinstance(x, ast.Name):
+                if x.id == var:
+                    return True
+                if x.id in binds and depth < 3 and mentions(binds[x.id], var, depth + 1):
+                    return True
+        return False
+
+    def test_pred(t, negated=False):
+        if isinstance(t, ast.UnaryOp) and isinstance(t.op, ast.Not):
+            return test_pred(t.operand, not negated)
+        if isinstance(t, ast.BoolOp) and isinstance(t.op, ast.Or) and not negated:
             return any(test_pred(v) for v in t.values)
         if isinstance(t, ast.Compare) and len(t.ops) == 1 and isinstance(t.ops[0], (ast.Gt, ast.Lt, ast.GtE, ast.LtE)):
-            l, r = ast.unparse(t.left), ast.unparse(t.comparators[0])
-            gt = isinstance(t.ops[0], ast.Gt)
-            lt = isinstance(t.ops[0], ast.Lt)
-            return (gt and 'begin' in l and 'end' in r) or (lt and 'end' in l and 'begin' in r)
+            op = type(t.ops[0])
+            if negated:
+                op = {ast.Gt: ast.LtE, ast.Lt: ast.GtE, ast.GtE: ast.Lt, ast.LtE: ast.Gt}[op]
+            lb, le = mentions(t.left, bvar), mentions(t.left, evar)
+            rb, re_ = mentions(t.comparators[0], bvar), mentions(t.comparators[0], evar)
+            return (op is ast.Gt and lb and not le and re_ and not rb) or (op is ast.Lt and le and not lb and rb and not re_)
         return False
     if target is None:
         raise AnalysisError('%s: Interval construction not found' % f.where)
